@@ -42,6 +42,9 @@ type fenv struct {
 	gated    bool
 	latency  []int
 	added    atomic.Int64
+	failAt   map[int]bool // arrival indexes whose fetch fails (returns an error and no results)
+	failed   map[int]bool // ids of inputs whose fetch failed
+	errsSent int
 }
 
 func (f *fenv) logf(format string, args ...any) {
@@ -78,6 +81,16 @@ func (f *fenv) fetch(ctx context.Context, items []int) ([]res, error) {
 	}
 	f.mu.Lock()
 	f.complete = append(f.complete, g.idx)
+	if f.failAt[g.idx] && f.errsSent < 8 {
+		// a failed fetch: its inputs get no result, everything else still comes out in order
+		f.errsSent++
+		for _, id := range items {
+			f.failed[id] = true
+		}
+		f.logLocked("fetch#%d fails", g.idx)
+		f.mu.Unlock()
+		return nil, fmt.Errorf("verif: injected fetch error for batch #%d", g.idx)
+	}
 	f.logLocked("fetch#%d returns", g.idx)
 	f.mu.Unlock()
 	return out, nil
@@ -93,15 +106,21 @@ func (f *fenv) witness() any {
 	return map[string]any{"params": f.params, "history": slices.Clone(f.log), "fetch_batches": batches, "fetch_return_order": slices.Clone(f.complete), "output_ids": slices.Clone(f.outs)}
 }
 
-// checkPrefix fails when the emitted ids are not 1,2,3,...
+// checkPrefix fails when the emitted ids are not 1,2,3,... (inputs whose fetch failed have no result). It
+// returns the number of inputs accounted for: results emitted + inputs of failed fetches.
 func (f *fenv) checkPrefix() int {
 	f.mu.Lock()
-	bad, m := -1, len(f.outs)
+	bad, m := -1, len(f.outs)+len(f.failed)
+	next := 1
 	for i, v := range f.outs {
-		if v != i+1 {
+		for f.failed[next] {
+			next++
+		}
+		if v != next {
 			bad = i
 			break
 		}
+		next++
 	}
 	var got int
 	if bad >= 0 {
@@ -110,10 +129,10 @@ func (f *fenv) checkPrefix() int {
 	f.mu.Unlock()
 	if bad >= 0 {
 		kind := "output-out-of-order"
-		if got <= bad {
+		if got < next {
 			kind = "output-duplicated"
 		}
-		f.c.Fail(kind, f.witness(), "Output position %d carries the result of input %d, expected input %d (one result per input, in input order)", bad, got, bad+1)
+		f.c.Fail(kind, f.witness(), "Output position %d carries the result of input %d, expected input %d (one result per input whose fetch succeeded, in input order)", bad, got, next)
 	}
 	return m
 }
@@ -194,7 +213,7 @@ func (f *fenv) restOrFail(adderDone bool, want int, why string) bool {
 	f.stopCons()
 	f.drainOutput()
 	if m := f.checkPrefix(); m < want {
-		f.c.Fail("output-lost", f.witness(), "%s: every fetch returned and no goroutine is left inside the fetcher, but only %d of %d results were emitted", why, m, want)
+		f.c.Fail("output-lost", f.witness(), "%s: every fetch returned and no goroutine is left inside the fetcher, but only %d of %d inputs are accounted for (results emitted + inputs of failed fetches)", why, m, want)
 	}
 	return true
 }
@@ -288,7 +307,7 @@ func fetcherCase(c *lib.Ctx) {
 	r := c.R
 	hook := probeHook()
 	mode := []string{"perm", "latency", "latency", "overtake"}[c.Index%4]
-	f := &fenv{c: c}
+	f := &fenv{c: c, failAt: map[int]bool{}, failed: map[int]bool{}}
 	c.OnPanic = f.witness
 
 	// ---- parameters
@@ -319,6 +338,11 @@ func fetcherCase(c *lib.Ctx) {
 		}
 		for i := 0; i < 16; i++ {
 			f.latency = append(f.latency, lib.Pick(r, []int{0, 0, 1, 2, 3, 5, 10, 20, 60}))
+		}
+		if r.Intn(3) == 0 { // some fetches fail: later batches must still come out, in order
+			for i := 0; i < 1+r.Intn(4); i++ {
+				f.failAt[r.Intn(12)] = true
+			}
 		}
 	default:
 		maxSize = 2 + r.Intn(3)
@@ -589,13 +613,25 @@ func fetcherCase(c *lib.Ctx) {
 	stopCons()
 	f.drainOutput()
 	if m := f.checkPrefix(); m != total {
-		c.Fail("output-duplicated", f.witness(), "%d results were emitted for %d inputs", m, total)
+		c.Fail("output-duplicated", f.witness(), "%d inputs are accounted for (results emitted + inputs of failed fetches), %d were added", m, total)
 	}
-	select {
-	case e := <-errCh:
-		c.Fail("fetch-error", f.witness(), "error channel got %v although no fetch failed", e)
-	default:
+	gotErrs := 0
+	for more := true; more; {
+		select {
+		case <-errCh:
+			gotErrs++
+		default:
+			more = false
+		}
 	}
+	f.mu.Lock()
+	sentErrs, failedInputs := f.errsSent, len(f.failed)
+	f.mu.Unlock()
+	if gotErrs != sentErrs {
+		c.Fail("fetch-error", f.witness(), "%d fetches failed, the error channel got %d errors", sentErrs, gotErrs)
+	}
+	c.Feat("fetches_failed", int64(sentErrs))
+	c.Feat("inputs_of_failed_fetches", int64(failedInputs))
 
 	f.mu.Lock()
 	inversions := 0
